@@ -16,6 +16,24 @@ def attrFloatInt (attrs : Json) (name : String) (d : Int) : Option Int :=
     | none => some d
   | _ => some d
 
+/-- a float attribute as a native float, rounded to float32 as the protobuf field stores it -/
+def attrFloatF (attrs : Json) (name : String) (d : Float) : Float :=
+  match attrs with
+  | .arr a => match a.toList.find? (fun x => getStr x "name" == name) with
+    | some x => match x.getObjVal? "f" with
+      | .ok (.num n) => (n.toFloat).toFloat32.toFloat
+      | _ => 0.0
+    | none => d
+  | _ => d
+
+/-- float32 arithmetic on the float carrier: every operation rounds to float32 (the summation order of the
+BLAS kernel is not modelled: compared with a tolerance, testing) -/
+def f32Arith : Arith Float :=
+  { zero := 0.0, add := fun a b => (a + b).toFloat32.toFloat, mul := fun a b => (a * b).toFloat32.toFloat,
+    sub := fun a b => (a - b).toFloat32.toFloat }
+
+def toFloatT (d : DT) : Tensor Float := match d.fl with | some f => f | none => ⟨d.t.shape, d.t.data.map Float.ofInt⟩
+
 def attrFloatsInt (attrs : Json) (name : String) : Option (Option (List Int)) :=
   match attrs with
   | .arr a => match a.toList.find? (fun x => getStr x "name" == name) with
@@ -31,6 +49,21 @@ def specOpt (dt : DType) (o : Option (Tensor Int)) (domSome : String) (domNone :
   | none => { domain := domNone }
 
 def isMatMulOp (op : String) : Bool := op == "MatMul" || op == "Gemm" || op == "LinearRegressor" || op == "Scaler"
+
+/-- Gemm on the float carrier (float32 inputs with fractional / huge values, fractional alpha or beta) -/
+def gemmFloat (attrs : Json) (A B : DT) (C : Option DT) : Answer :=
+  let alpha := attrFloatF attrs "alpha" 1.0
+  let beta := attrFloatF attrs "beta" 1.0
+  let tA := attrInt attrs "transA" 0 != 0
+  let tB := attrInt attrs "transB" 0 != 0
+  let cf := C.map toFloatT
+  let model : Outcome := match gemmOp f32Arith alpha beta tA tB (toFloatT A) (toFloatT B) cf with
+    | .ok t => { status := "ok", outs := [some (DT.ofFloat .f32 t)] }
+    | .error e => .ofErr e
+  let spec : SpecOut := match Spec.gemm f32Arith alpha beta tA tB (toFloatT A) (toFloatT B) cf with
+    | some t => { domain := "must", outs := some [some (DT.ofFloat .f32 t)] }
+    | none => { domain := "mustRefuse" }
+  { model, spec, tags := ["float", if tA then "tA" else "nA", if tB then "tB" else "nB"] }
 
 def runMatMulOp (op : String) (attrs : Json) (ins : List (Option DT)) : Answer :=
   match op, ins with
@@ -58,6 +91,9 @@ def runMatMulOp (op : String) (attrs : Json) (ins : List (Option DT)) : Answer :
     let names := attrNames attrs
     if names.any (fun n => !["alpha", "beta", "transA", "transB"].contains n) then
       { model := .ofErr .attr, spec := { domain := "mayRefuse" }, tags := ["bad-attr"] }
+    else if A.dt == .f32 && B.dt == .f32 && (A.fl.isSome || B.fl.isSome || (match C with | some c => c.fl.isSome | none => false)) &&
+        (match C with | some c => c.dt == .f32 | none => true) then
+      gemmFloat attrs A B C
     else
       match attrFloatInt attrs "alpha" 1, attrFloatInt attrs "beta" 1 with
       | some alpha, some beta =>
@@ -73,7 +109,11 @@ def runMatMulOp (op : String) (attrs : Json) (ins : List (Option DT)) : Answer :
         else
           { model := (okT A.dt (gemmOp intArith alpha beta tA tB A.t B.t (C.map (·.t)))).checkExact, tags,
             spec := specOpt A.dt sp "must" }
-      | _, _ => { model := { status := "inexact" } }
+      | _, _ =>
+        -- fractional alpha / beta: float carrier
+        if A.dt == .f32 && B.dt == .f32 && (match C with | some c => c.dt == .f32 | none => true) then
+          gemmFloat attrs A B C
+        else { model := { status := "inexact" } }
   | "LinearRegressor", [some X] =>
     let names := attrNames attrs
     if names.contains "post_transform" || names.any (fun n => !["coefficients", "intercepts", "targets", "post_transform"].contains n) then
